@@ -11,6 +11,7 @@ import (
 	"sort"
 	"strings"
 	"sync"
+	"sync/atomic"
 	"time"
 
 	"golang.org/x/tools/go/packages"
@@ -32,6 +33,7 @@ type engine struct {
 	loadSecs         float64
 	cfgDebugGlobals  bool
 	skipInit         map[string]bool
+	okSeen, sampled  int64
 }
 
 type config struct {
@@ -47,6 +49,8 @@ type config struct {
 	Solver      string
 	StopOnVio   bool
 	Deadline    time.Duration
+	Samples     int
+	Seed        int64
 }
 
 const modPath = "github.com/xuperchain/xupercore"
@@ -227,6 +231,14 @@ func (e *engine) runPath(sol *Solver, harness *ssa.Function, prefix []decision, 
 			}
 		}()
 		call(m, &frame{m: m, th: m.cur}, 0, harness, nil)
+		if e.cfg.Samples > 0 && len(res.violations) == 0 && m.concrete == nil && e.wantSample(m.trace) {
+			// a concrete representative of this path, for differential validation against the native build
+			if r, model := m.checkModel(); r == Sat {
+				res.sampleModel = m.modelVars(model)
+				res.sampleChoices = m.choiceList()
+				res.hasSample = true
+			}
+		}
 		if m.pos < len(m.prefix) {
 			panic(engineError{fmt.Sprintf("path ended with %d unconsumed prefix decisions (nondeterministic harness?)", len(m.prefix)-m.pos)})
 		}
@@ -277,6 +289,12 @@ type harnessReport struct {
 	Problems     []string          `json:"problems"`
 	Samples      []pathSample      `json:"samples"`
 	Observes     [][]string        `json:"observes,omitempty"`
+	SampleInputs []sampleInput     `json:"sample_inputs,omitempty"`
+}
+
+type sampleInput struct {
+	Vars    []replayVar `json:"vars"`
+	Choices []int       `json:"choices"`
 }
 
 type pathSample struct {
@@ -313,6 +331,8 @@ func traceString(tr []decision) string {
 }
 
 func (e *engine) explore(spec string) *harnessReport {
+	atomic.StoreInt64(&e.okSeen, 0)
+	atomic.StoreInt64(&e.sampled, 0)
 	rep := &harnessReport{Harness: spec, Outcomes: map[string]int{}, Covers: map[string]bool{}, Asserts: map[string][2]int{}, Funcs: map[string]int64{}}
 	t0 := time.Now()
 	h, err := e.findFunc(spec)
@@ -413,6 +433,10 @@ func (e *engine) explore(spec string) *harnessReport {
 				sort.Strings(dis)
 				rep.Samples = append(rep.Samples, pathSample{Decisions: traceString(res.trace), Outcome: res.outcome, PCSize: res.pcSize, Asserts: dis})
 			}
+			if res.hasSample && res.outcome == "ok" && len(rep.SampleInputs) < e.cfg.Samples {
+				// the first two completed paths, then a seed-dependent selection
+				rep.SampleInputs = append(rep.SampleInputs, sampleInput{Vars: res.sampleModel, Choices: res.sampleChoices})
+			}
 			work = append(work, res.alts...)
 			if e.cfg.MaxPaths > 0 && rep.Paths >= e.cfg.MaxPaths && (len(work) > 0 || active > 0) {
 				stopped = true
@@ -497,6 +521,8 @@ func main() {
 	trace := flag.Bool("trace", false, "trace instructions")
 	stopVio := flag.Bool("stop-on-violation", false, "stop at the first new violation")
 	deadline := flag.Duration("deadline", 30*time.Minute, "wall-clock limit per harness")
+	samples := flag.Int("samples", 0, "emit up to N concrete representatives of completed paths (for native differential validation)")
+	seed := flag.Int64("seed", 0, "seed for sample selection")
 	concrete := flag.String("concrete", "", "run once concretely with values from this replay JSON and print observations")
 	flag.Parse()
 
@@ -519,7 +545,7 @@ func main() {
 	}
 	e.trace = *trace
 	e.cfg = config{Workers: *workers, TimeoutMs: *timeout, Unwind: *unwind, SplitMax: *split, MaxPaths: *maxPaths, MaxInstr: *maxInstr,
-		PermuteMaps: *permute, Explore: *explore, PreemptMax: *preempt, Solver: *solver, StopOnVio: *stopVio, Deadline: *deadline}
+		PermuteMaps: *permute, Explore: *explore, PreemptMax: *preempt, Solver: *solver, StopOnVio: *stopVio, Deadline: *deadline, Samples: *samples, Seed: *seed}
 
 	type outT struct {
 		LoadSecs float64          `json:"load_s"`
@@ -587,4 +613,28 @@ func (e *engine) runConcrete(spec, replayPath string) *harnessReport {
 		rep.Problems = append(rep.Problems, res.outcome+": "+firstLines(res.msg, 12))
 	}
 	return rep
+}
+
+// wantSample: the first two completed paths of a harness and a seed-dependent
+// selection of later ones are turned into concrete representatives.
+func (e *engine) wantSample(tr []decision) bool {
+	n := atomic.AddInt64(&e.okSeen, 1)
+	if atomic.LoadInt64(&e.sampled) >= int64(e.cfg.Samples) {
+		return false
+	}
+	h := int64(0)
+	for _, d := range tr {
+		h = h*31 + int64(d.C) + int64(d.Kind)
+		if d.B {
+			h++
+		}
+	}
+	if h < 0 {
+		h = -h
+	}
+	if n <= 2 || (h+e.cfg.Seed)%23 == 0 {
+		atomic.AddInt64(&e.sampled, 1)
+		return true
+	}
+	return false
 }
